@@ -35,14 +35,14 @@ Definition w_hdr : sub :=
   mkSub (mkTx 1 0 true true true false false 0 false 200000 420 true false 3 true)
         (Group [mkTx 1 0 true true true false false 0 true 200000 140 true false 3 true; w_mem 6 true] true) false.
 
-Lemma refuted_forward : ~ admitted_sound (fun c s => g_wrap s && g_fee c s && g_hdr s).
+Lemma refuted_forward : ~ accepted_sound (fun c s => g_wrap s && g_fee c s && g_hdr s).
 Proof.
   intro H.
   specialize (H (wcfg true 100000 3) [] w_fwd [s_outer w_fwd] (wcfg_ok true 100000 3 ltac:(lia)) eq_refl eq_refl).
   vm_compute in H. discriminate.
 Qed.
 
-Lemma refuted_wrapper : ~ admitted_sound (fun c s => g_fwd s && g_fee c s && g_hdr s).
+Lemma refuted_wrapper : ~ accepted_sound (fun c s => g_fwd s && g_fee c s && g_hdr s).
 Proof.
   intro H.
   specialize (H (wcfg false 100000 1) [] w_wrap [s_outer w_wrap] (wcfg_ok false 100000 1 ltac:(lia)) eq_refl eq_refl).
@@ -55,24 +55,24 @@ Lemma wrapper_blocks_victim :
   = (R_MANYTX, [s_outer w_wrap]).
 Proof. reflexivity. Qed.
 
-Lemma refuted_negfee : ~ admitted_sound (fun c s => g_fwd s && g_wrap s && g_hdr s).
+Lemma refuted_negfee : ~ accepted_sound (fun c s => g_fwd s && g_wrap s && g_hdr s).
 Proof.
   intro H.
   specialize (H (wcfg false 0 3) [] w_neg [s_outer w_neg] (wcfg_ok false 0 3 ltac:(lia)) eq_refl eq_refl).
   vm_compute in H. discriminate.
 Qed.
 
-Lemma refuted_hdrempty : ~ admitted_sound (fun c s => g_fwd s && g_wrap s && g_fee c s).
+Lemma refuted_hdrempty : ~ accepted_sound (fun c s => g_fwd s && g_wrap s && g_fee c s).
 Proof.
   intro H.
   specialize (H (wcfg false 100000 3) [] w_hdr [s_outer w_hdr] (wcfg_ok false 100000 3 ltac:(lia)) eq_refl eq_refl).
   vm_compute in H. discriminate.
 Qed.
 
-Definition C22_admitted_implies_acceptable_full : Prop :=
+Definition C22_accepted_implies_acceptable_full : Prop :=
   forall c p s p', cfg_ok c -> pipeline c p (STx s) = (R_OK, p') -> acceptable c p s = true.
 
-Lemma refuted_full : ~ C22_admitted_implies_acceptable_full.
+Lemma refuted_full : ~ C22_accepted_implies_acceptable_full.
 Proof.
   intro H. apply refuted_forward. intros c p s p' Hc Hp _. exact (H c p s p' Hc Hp).
 Qed.
